@@ -26,13 +26,13 @@ func c02ready(s Status) bool {
 }
 
 type c02world struct {
-	st     *State
-	r      *TaskRunner
-	chg    *Change
-	tasks  []*Task
-	now    time.Time
-	starts map[string]int
-	hasUndo bool
+	st        *State
+	r         *TaskRunner
+	chg       *Change
+	tasks     []*Task
+	now       time.Time
+	starts    map[string]int
+	hasUndo   bool
 	resumable int
 }
 
